@@ -96,7 +96,7 @@ theorem readFramesC_eq (buf : Bytes) (z y : Bool) (elems : List Bytes) :
   cases obus with
   | nil => simp
   | cons a as =>
-    have hl : (a :: as).getLast? = some ((a :: as).getLast (by simp)) := List.getLast?_eq_getLast _
+    have hl : (a :: as).getLast? = some ((a :: as).getLast (by simp)) := List.getLast?_eq_some_getLast _
     by_cases hy : y = true
     · simp [hy, hl]
     · simp [hy]
